@@ -52,7 +52,7 @@ func zeroMask(b []byte) []byte {
 func TestC11(t *testing.T) {
 	r := NewReporter(t)
 	defer r.Done()
-	r.Rule("full product of directory-name case x nesting x extension case x key placement {none, adjacent, REDKEY, both (different keys), malformed adjacent, malformed REDKEY} x watermark {none, encrypted, decrypted} x file length around 0xF70..0x1070 x {read, write}; every layout read sequentially and positionally across the watermark borders; oracle = decision table written from the statement selecting one of {identity, redump decrypt, 3k3y decrypt+mask, mask}; distinct by layout")
+	r.Rule("full product of directory-name case x nesting x extension case x key placement {none, adjacent, REDKEY, both (different keys), malformed adjacent, malformed REDKEY} x watermark {none, encrypted, decrypted} x file length around 0xF70..0x1070 x {read, write}; every layout read sequentially and positionally across the watermark borders, and again with every underlying Read capped at {1000, 7} (thorough: 2047, 1000, 16, 7, 1) bytes; oracle = decision table written from the statement selecting one of {identity, redump decrypt, 3k3y decrypt+mask, mask}; distinct by layout")
 	root := filepath.Join(scratchBase(), sprintf("verifh-c11-%d", os.Getpid()), "root")
 	defer os.RemoveAll(filepath.Dir(root))
 	tables := [][]uint32{{0, 2, 4, 5}, {0, 1, 4, 5}} // sector 3 encrypted / sectors 2-3 encrypted (tail of the 3k3y area is ciphertext on disk)
@@ -273,6 +273,70 @@ func c11Run(r *Reporter, root string, l c11Layout, pairs []uint32, k1, k2, kEmb 
 						viol(class+":"+chosen.name, why)
 						return
 					}
+				}
+			}
+		}
+	}
+	// the same layout on a filesystem that returns short reads (at most cap bytes per Read): the same bytes, by
+	// sequential read with several buffer sizes and after seeks
+	if !l.Write {
+		caps := []int{1000, 7}
+		if r.Thorough() {
+			caps = []int{2047, 1000, 16, 7, 1}
+		}
+		for _, cp := range caps {
+			cp := cp
+			leaf := newVFs(afero.NewOsFs(), "cap")
+			leaf.record = false
+			leaf.Hook = func(e FsEvent) *FsFault {
+				if e.Op == "Read" && e.N > cp {
+					return &FsFault{Short: cp}
+				}
+				return nil
+			}
+			cfs := &pfs.FS{Fs: afero.NewBasePathFs(leaf, root)}
+			for _, bs := range []int{4096, 300, 65536} {
+				cf, err := cfs.OpenFile(imgP, os.O_RDONLY, 0)
+				r.Transition(1)
+				if err != nil {
+					viol("short-reads:open-failed", sprintf("with underlying reads capped at %d bytes the open fails (%v) although it succeeds otherwise", cp, err))
+					return
+				}
+				var cgot []byte
+				buf := make([]byte, bs)
+				var cerr error
+				for len(cgot) <= len(got)+bs {
+					n, err := cf.Read(buf)
+					cgot = append(cgot, buf[:n]...)
+					if err != nil {
+						if err != io.EOF {
+							cerr = err
+						}
+						break
+					}
+				}
+				if cerr == nil && bytes.Equal(cgot, got) {
+					// cursor reads after seeks
+					cst := &ioState{cur: int64(len(cgot))}
+					for _, off := range []int64{0xF00, 0xF71, 0x1000, 0x106F, 5} {
+						for _, o := range []ioOp{{Kind: "seek", Off: off, Whence: io.SeekStart}, {Kind: "read", N: 700}, {Kind: "read", N: 700}} {
+							if why, class := applyOp(cf.(rsra), chosen.ref, cst, o, nil); why != "" {
+								cf.Close()
+								viol("short-reads:"+class+":"+chosen.name, sprintf("with underlying reads capped at %d bytes: %s", cp, why))
+								return
+							}
+						}
+					}
+				}
+				cf.Close()
+				if cerr != nil {
+					viol("short-reads:read-error", sprintf("with underlying reads capped at %d bytes a sequential read (buffer %d) fails: %v", cp, bs, cerr))
+					return
+				}
+				if !bytes.Equal(cgot, got) {
+					r.Outcome("short-reads-change-bytes")
+					viol("short-reads:wrong-bytes:"+chosen.name, sprintf("with underlying reads capped at %d bytes a sequential read (buffer %d) returns other bytes than with full reads: %s", cp, bs, describeDiff(cgot, got)))
+					return
 				}
 			}
 		}
